@@ -3,6 +3,8 @@ import itertools
 import json
 
 import numpy as np
+import sklearn.base
+import sklearn.utils.validation
 
 import pykoop
 from .. import core, pipes, structural as st
@@ -308,6 +310,308 @@ def enumerate_structures(rng, limit):
     return out
 
 
+# ----------------------------------------------------------------------------- exception safety of fitted composites
+# The declared dimensions must describe the arrays produced at EVERY moment of an object's life, in particular after a call
+# that RAISED. Sequence: a composite (KoopmanPipeline / SplitPipeline) is fitted successfully; a second fit / fit_transformers
+# / fit_transform on the SAME object, announced with another partition of the same columns (another n_inputs and / or
+# episode_feature), raises part-way (the announced episode column does not hold episode labels, a stage whose parameter was
+# made invalid, a stage that rejects the data, invalid stage names, a stage that no longer fits the new partition); then
+# valid transform calls follow without another fit. Each of them must either refuse (raise) or return an array that the
+# attributes the object declares AT THAT MOMENT describe: widths, the chain of stage dimensions and episode flags, the
+# samples per episode (episodes cut by the harness according to the declared flag), min_samples_. A refit that does not
+# raise is checked the same way (it is then simply a second fit).
+
+class _Tripwire(sklearn.base.BaseEstimator, sklearn.base.TransformerMixin):
+    """An identity transformer (wrapped in SkLearnLiftingFn it is a width-preserving stage) that rejects the data handed to
+    fit while the class-wide switch is on: a stand-in for any stage whose fit stops with an exception."""
+    armed = False
+
+    def fit(self, X, y=None):
+        if _Tripwire.armed:
+            raise ValueError('this stage rejects the data')
+        self.n_features_in_ = np.asarray(X).shape[1]
+        return self
+
+    def transform(self, X):
+        sklearn.utils.validation.check_is_fitted(self, 'n_features_in_')    # like every scikit-learn transformer
+        return np.array(X, dtype=float)
+
+    def inverse_transform(self, X):
+        sklearn.utils.validation.check_is_fitted(self, 'n_features_in_')
+        return np.array(X, dtype=float)
+
+
+CHAINS = {'pipe': ['lifting_functions'], 'split': ['lifting_functions_state', 'lifting_functions_input']}
+SPEC_CHAINS = {'pipe': ['ss'], 'split': ['a', 'b']}
+BAD_PARAM = {'poly': ('order', 0), 'delay': ('n_delays_state', -1), 'rbf': ('shape', -1.0)}
+
+
+def _bounded(spec, nx, nu):
+    """the lifted width stays small under this partition of the columns too (or the partition is rejected)"""
+    try:
+        return sum(pipes.widths(spec, nx, nu)) <= 120
+    except Exception:
+        return True
+
+
+def safety_cases(rng, n):
+    """Fitted composites x a disturbance that makes the next fit raise x another partition of the same columns."""
+    out = []
+    for i in range(n):
+        c = st.gen_case(rng, KINDS, max_depth=2, cap=40, opaque=True, extra=5)
+        if i % 4 == 0:
+            # chains that keep going for a while before the stage that cuts episodes: the stage that notices a wrong
+            # episode column is not the first one
+            head = rng.choice([{'k': 'poly', 'order': 2, 'io': False}, {'k': 'sk', 'scaler': 'standard'}, {'k': 'bilinear'}])
+            if head['k'] == 'bilinear' and c['nu'] == 0:
+                head = {'k': 'poly', 'order': 2, 'io': False}
+            spec = {'k': 'pipe', 'ss': [head, {'k': 'delay', 'dx': rng.randint(0, 2), 'du': rng.randint(0, 2)}]}
+            m = pipes.loss(spec) + 2
+            eps, order = pipes.gen_layout(rng, m, extra=5, ep=c['ep'])
+            rows = [([l] if c['ep'] else []) + [round(rng.uniform(-2.0, 2.0), 3) for _ in range(c['nx'] + c['nu'])]
+                    for (l, t) in order]
+            c = {'spec': spec, 'nx': c['nx'], 'nu': c['nu'], 'ep': c['ep'], 'rows': rows, 'min_len': m, 'form': 'c',
+                 'degenerate': False}
+        if c['spec']['k'] not in CHAINS:
+            c['spec'] = {'k': 'pipe', 'ss': [c['spec']]}
+        spec = c['spec']
+        total = (1 if c['ep'] else 0) + c['nx'] + c['nu']
+        options = [(nu2, ep2) for ep2 in (False, True) for nu2 in range(0, total - (1 if ep2 else 0))
+                   if (nu2, ep2) != (c['nu'], c['ep']) and _bounded(spec, total - (1 if ep2 else 0) - nu2, nu2)]
+        if not options:
+            continue
+        nu2, ep2 = rng.choice(options)
+        chains = [(ck, j) for ck in SPEC_CHAINS[spec['k']] for j in range(len(spec[ck]))]
+        disturb = rng.choice(['flags', 'flags', 'param', 'trip', 'trip', 'names'])
+        sf = {'nu2': nu2, 'ep2': ep2, 'call': rng.choice(['fit_transformers', 'fit'] if spec['k'] == 'pipe'
+                                                         else ['fit', 'fit_transform'])}
+        if disturb == 'param':
+            cand = [(ck, j) for ck, j in chains if spec[ck][j]['k'] in BAD_PARAM]
+            if cand:
+                sf['at'] = list(rng.choice(cand))
+            else:
+                disturb = 'trip'
+        if disturb == 'trip':
+            ck = rng.choice(SPEC_CHAINS[spec['k']])
+            if spec['k'] == 'split' and ck == 'b' and c['nu'] == 0:
+                ck = 'a'
+            sf['at'] = [ck, rng.randint(0, len(spec[ck]))]
+        if disturb == 'names':
+            if not chains:
+                disturb = 'flags'
+            else:
+                sf['at'] = list(rng.choice(chains))
+                sf['name'] = rng.choice(['dup', 'dunder', 'param'])
+        sf['disturb'] = disturb
+        # a matrix that is valid data for the NEW announcement: the same numbers, the first column holding episode labels
+        # (two episodes, the second one possibly interleaved at the end) when an episode column is announced
+        n_rows = len(c['rows'])
+        half = max(n_rows // 2, min(n_rows, c['min_len']))
+        l0, l1 = rng.sample(range(0, 9), 2)
+        sf['labels'] = [l0 if t < half else l1 for t in range(n_rows)]
+        c['safety'] = sf
+        out.append(c)
+    return out
+
+
+def _chain_attr(spec, ck):
+    return CHAINS[spec['k']][SPEC_CHAINS[spec['k']].index(ck)]
+
+
+def _build_safety(case):
+    spec, sf = case['spec'], case['safety']
+    est = pipes.build(spec)
+    if sf['disturb'] == 'trip':
+        attr = _chain_attr(spec, sf['at'][0])
+        chain = list(getattr(est, attr) or [])
+        chain.insert(sf['at'][1], ('trip', pykoop.SkLearnLiftingFn(_Tripwire())))
+        setattr(est, attr, chain)
+    return est
+
+
+def _disturb(case, est):
+    spec, sf = case['spec'], case['safety']
+    if sf['disturb'] == 'param':
+        ck, j = sf['at']
+        name, value = BAD_PARAM[spec[ck][j]['k']]
+        getattr(est, _chain_attr(spec, ck))[j][1].set_params(**{name: value})
+    elif sf['disturb'] == 'names':
+        ck, j = sf['at']
+        attr = _chain_attr(spec, ck)
+        chain = list(getattr(est, attr))
+        others = [nm for a in CHAINS[spec['k']] for nm, _ in (getattr(est, a) or [])]
+        others.remove(chain[j][0])
+        new = {'dup': others[0] if others else 'with__dunder', 'dunder': 'with__dunder',
+               'param': CHAINS[spec['k']][0]}[sf['name']]
+        chain[j] = (new, chain[j][1])
+        setattr(est, attr, chain)
+
+
+def _children(e):
+    """the fitted chains of a composite, found on the object itself: [(first-stage header the chain must start from,
+    chain, what the chain must end in)]"""
+    e0 = 1 if e.episode_feature_ else 0
+    if hasattr(e, 'lifting_functions_'):
+        return [('stages', (bool(e.episode_feature_), int(e.n_features_in_), int(e.n_states_in_), int(e.n_inputs_in_)),
+                 e.lifting_functions_,
+                 (bool(e.episode_feature_), int(e.n_features_out_), int(e.n_states_out_), int(e.n_inputs_out_)))]
+    if hasattr(e, 'lifting_functions_state_'):
+        return [('state chain', (bool(e.episode_feature_), e0 + int(e.n_states_in_), int(e.n_states_in_), 0),
+                 e.lifting_functions_state_,
+                 (bool(e.episode_feature_), e0 + int(e.n_states_out_), int(e.n_states_out_), 0)),
+                ('input chain', (bool(e.episode_feature_), e0 + int(e.n_inputs_in_), 0, int(e.n_inputs_in_)),
+                 e.lifting_functions_input_,
+                 (bool(e.episode_feature_), e0 + int(e.n_inputs_out_), 0, int(e.n_inputs_out_)))]
+    return []
+
+
+def _chain_problem(e, part, path='the object'):
+    """declared dimensions / episode flags of a (possibly nested) fitted object against those of its own stages.
+    part 'in': what the object says it takes in against what its stages were fit with (start of every chain, every stage
+    against the previous one); part 'out': what it says it gives out against its last stages, the width sums, min_samples_,
+    n_samples_in."""
+    name = type(e).__name__
+    e0 = 1 if e.episode_feature_ else 0
+    if part == 'in' and e.n_features_in_ != e0 + e.n_states_in_ + e.n_inputs_in_:
+        return f'{path} ({name}): n_features_in_ {e.n_features_in_} != episode column {e0} + n_states_in_ {e.n_states_in_} + n_inputs_in_ {e.n_inputs_in_}'
+    if part == 'out' and e.n_features_out_ != e0 + e.n_states_out_ + e.n_inputs_out_:
+        return f'{path} ({name}): n_features_out_ {e.n_features_out_} != episode column {e0} + n_states_out_ {e.n_states_out_} + n_inputs_out_ {e.n_inputs_out_}'
+    if part == 'out' and e.min_samples_ != e.n_samples_in(1):
+        return f'{path} ({name}): min_samples_ {e.min_samples_} != n_samples_in(1) {e.n_samples_in(1)}'
+    for label, start, chain, end in _children(e):
+        prev, who = start, f'{path} ({name}) hands its {label}'
+        for j, (_, lf) in enumerate(chain):
+            here = (bool(lf.episode_feature_), int(lf.n_features_in_), int(lf.n_states_in_), int(lf.n_inputs_in_))
+            if part == 'in' and here != prev:
+                return (f'{who} (episode_feature, features, states, inputs) = {prev} but stage {j} of the {label} '
+                        f'({type(lf).__name__}) was fit with {here}')
+            why = _chain_problem(lf, part, f'{path} / {label}[{j}]')
+            if why:
+                return why
+            prev = (bool(lf.episode_feature_), int(lf.n_features_out_), int(lf.n_states_out_), int(lf.n_inputs_out_))
+            who = f'stage {j} of the {label} of {path} produces'
+        if part == 'out' and prev != end:      # (an empty chain passes its columns on)
+            return (f'{who} (episode_feature, features, states, inputs) = {prev} but {path} ({name}) declares {end} '
+                    f'for the end of its {label}')
+    if part == 'out' and hasattr(e, 'lifting_functions_'):
+        for k in (1, 2, 5):
+            n = k
+            for _, lf in e.lifting_functions_[::-1]:
+                n = lf.n_samples_in(n)
+            if e.n_samples_in(k) != n:
+                return f'{path} ({name}): n_samples_in({k}) = {e.n_samples_in(k)} is not the sum over its stages ({n})'
+    return None
+
+
+def described(est, P, Y):
+    """Do the attributes `est` declares NOW describe the array Y = est.transform(P)? None or a description. Episodes are cut
+    here, by the flag the object declares."""
+    name = type(est).__name__
+    Y = np.asarray(Y)
+    if Y.ndim != 2:
+        return f'{name}.transform returned an array of {Y.ndim} dimensions'
+    try:
+        ep = bool(est.episode_feature_)
+        if P.shape[1] != est.n_features_in_:
+            return f'{name}.transform accepted {P.shape[1]} columns while it declares n_features_in_ = {est.n_features_in_}'
+        why = _chain_problem(est, 'in')
+        if why:
+            return why
+        if Y.shape[1] != est.n_features_out_:
+            return f'{name}.transform width {Y.shape[1]} != n_features_out_ {est.n_features_out_}'
+        why = _chain_problem(est, 'out')
+        if why:
+            return why
+        ms = int(est.min_samples_)
+    except AttributeError as e:
+        return f'{name}.transform returned an array of shape {Y.shape} but a declared attribute is missing: {e}'
+    labels = np.asarray(P, dtype=float)[:, 0] if ep else None
+    if ep and not (np.all(labels >= 0) and np.all(labels == np.round(labels))):
+        return None     # stages that do not cut episodes never look at the first column: no episodes to count
+    got = dict((l, B.shape[0]) for l, B in st.ref_split(Y, ep)) if Y.shape[0] else {}
+    total = 0
+    for l, Pe in st.ref_split(P, ep):
+        n = Pe.shape[0]
+        if n >= ms:
+            total += n - ms + 1
+            if got.get(l, 0) != n - ms + 1:
+                return (f'{name}.transform: episode {l} of {n} samples (episodes as the object declares them: '
+                        f'episode_feature_={ep}) -> {got.get(l, 0)} lifted samples, n - min_samples_ + 1 = {n - ms + 1}')
+    if not ep and P.shape[0] >= ms and Y.shape[0] != total:
+        return f'{name}.transform: {Y.shape[0]} lifted samples for {P.shape[0]} samples, min_samples_ = {ms}'
+    return None
+
+
+def safety_oracle(case, ctx=None):
+    """fit; a second fit that (usually) raises part-way, announced with another partition of the columns; then valid
+    transform calls: refused, or described by what the object declares. Returns (None | description, family). family
+    'stale output side': the second fit raised, everything the object says about what it TAKES IN agrees with how its
+    stages were fit (so the array is produced by stages fitted for the declared partition) and only the output-side
+    attributes (n_*_out_, min_samples_) were left behind; 'half-updated' otherwise."""
+    sf = case['safety']
+    X = st.X_of(case)
+    spec = case['spec']
+    count = (lambda k: ctx.count('exception safety: ' + k)) if ctx is not None else (lambda k: None)
+    _Tripwire.armed = False
+    try:
+        est = _build_safety(case)
+        a_nu, a_ep = pipes.arg_forms(spec, case['nu'], case['ep'])
+        if spec['k'] == 'pipe':
+            est.fit_transformers(X, n_inputs=a_nu, episode_feature=a_ep)
+        else:
+            est.fit(X, n_inputs=a_nu, episode_feature=a_ep)
+        Y = est.transform(X)
+    except Exception:
+        count('first fit not accepted (skipped)')
+        return None, None
+    why = described(est, X, Y)
+    if why:
+        return 'after the first fit: ' + why, 'half-updated'
+    # the second fit
+    try:
+        _disturb(case, est)
+    except Exception:
+        count('disturbance not applicable (skipped)')
+        return None, None
+    _Tripwire.armed = sf['disturb'] == 'trip'
+    raised = None
+    try:
+        getattr(est, sf['call'])(X, n_inputs=sf['nu2'], episode_feature=sf['ep2'])
+    except Exception as e:      # noqa
+        raised = e
+    finally:
+        _Tripwire.armed = False
+    count(f"second {sf['call']} raised" if raised is not None else f"second {sf['call']} succeeded")
+    if raised is not None:
+        count('raised, disturbance ' + sf['disturb'] + ', ' + spec['k'])
+    # matrices for the later calls: the one of the first fit, and one that is valid for the second announcement
+    P2 = np.array(X, dtype=float)
+    if sf['ep2']:
+        P2[:, 0] = sf['labels']
+    probes = [('the matrix of the first fit', X), ('a matrix valid for the second announcement', P2)]
+    told = (f"{type(est).__name__}: fit(n_inputs={case['nu']}, episode_feature={case['ep']}) succeeded, then "
+            f"{sf['call']}(n_inputs={sf['nu2']}, episode_feature={sf['ep2']}) "
+            + (f'raised {type(raised).__name__} ({str(raised)[:80]})' if raised is not None else 'succeeded')
+            + f" [disturbance: {sf['disturb']}]")
+    for label, P in probes:
+        try:
+            Y = est.transform(P)
+        except Exception:
+            count('later transform refused')
+            continue
+        count('later transform returned an array')
+        why = described(est, np.asarray(P, dtype=float), Y)
+        if why:
+            family = 'half-updated'
+            try:
+                if raised is not None and P.shape[1] == est.n_features_in_ and _chain_problem(est, 'in') is None:
+                    family = 'stale output side'
+            except Exception:
+                pass
+            return f'{told}; then transform of {label} returned an array of shape {np.asarray(Y).shape}: {why}', family
+    return None, None
+
+
 def population_search(ctx):
     """failing-input search over a fresh population (also used when an exception raised inside the implementation
     ended the correspondence run early)"""
@@ -328,7 +632,12 @@ def run(ctx):
                 'different sample counts) on records with 2..4 episodes of unequal length, contiguous or interleaved; '
                 'on every fitted case the single-call route fit_transform is exercised for EVERY estimator of the tree '
                 '(each lifting function, SplitPipeline, KoopmanPipeline with a regressor) on the matrix it is handed '
-                'inside the tree')
+                'inside the tree; plus exception safety of fitted composites: random KoopmanPipeline / SplitPipeline trees fitted '
+                'once, then a second fit / fit_transformers / fit_transform on the same object announced with another '
+                '(n_inputs, episode_feature) partition of the same columns that raises part-way (announced episode column '
+                'without labels, a stage parameter made invalid, a stage that rejects the data at any position of any '
+                'chain, duplicate / reserved stage names, a stage that does not fit the new partition) or succeeds, then '
+                'transform of the first matrix and of a matrix valid for the second announcement without another fit')
     ctx.explanation = ('theorems C04_* about the executable Lean model (fit / tr / nSamplesIn / attrs); '
                        'correspondence: fitted attributes of EVERY estimator in the tree, n_samples_in(1..4) '
                        'and error enum compared exactly with the model; oracle: declared-vs-produced on the '
@@ -336,7 +645,13 @@ def run(ctx):
                        'returned by fit_transform has width n_features_out_, n - min_samples_ + 1 samples for every '
                        'episode (episodes separated by the harness, not by pykoop), and the same declared dimensions, '
                        'shape, episode column and values (rtol 1e-9) as fit(X).transform(X) of a separately built '
-                       'estimator')
+                       'estimator; exception safety: after a fit call that raised, every later transform either raises or '
+                       'returns an array described by what the object declares at that moment - columns accepted = '
+                       'n_features_in_, width = n_features_out_ = episode column + states + inputs, the declared input '
+                       'partition and episode flag of every composite equal those its first stages were fit with and every '
+                       'stage starts where the previous one stopped (recursively), the declared output equals the last '
+                       'stage, min_samples_ = n_samples_in(1) additive over stages, n - min_samples_ + 1 samples per '
+                       'episode with the episodes cut by the harness according to the DECLARED flag')
     ctx.proof_obligations('Properties.C04', THEOREMS)
     drv = ctx.get_driver()
     cases = []
@@ -379,6 +694,23 @@ def run(ctx):
                 small = st.shrink(c, lambda x: route_oracle(x))
                 ctx.fail(route_oracle(small) or why, small, {'kinds': sorted(pipes.kinds_in(c['spec'])),
                                                              'route': 'fit_transform'})
+    # exception safety: fit, a second fit that raises part-way under another partition of the columns, later valid calls
+    for c in safety_cases(ctx.rng, ctx.n(70, 700)):
+        ctx.record_case({k: c[k] for k in ('spec', 'nx', 'nu', 'ep', 'safety')}, True)
+        res = ctx.attempt('exception safety', lambda: safety_oracle(c, ctx))
+        why, family = res if res is not None else (None, None)
+        if not why:
+            continue
+        if family == 'stale output side':
+            # every stage was re-fitted for the declared partition and the object is consistent on its input side; the
+            # output-side attributes are those of the fit before: a genuine defect of the unchanged tree, recorded as known
+            # finding F-halffit (matched by route + family), kept apart from the half-updated objects (stages of one fit
+            # under the header of another), which remain violations.
+            ctx.count('exception safety: stale output-side attributes after a raising refit (known finding F-halffit)')
+            ctx.fail(why, c, {'route': 'exception-safety', 'family': 'stale output side'})
+            continue
+        ctx.fail(why, c, {'kinds': sorted(pipes.kinds_in(c['spec'])), 'route': 'exception-safety', 'family': family})
+
     def search(ctx):
         for c in bad_cases[:50]:
             why = oracle(c) or route_oracle(c)
@@ -392,6 +724,10 @@ def run(ctx):
 def replay(ctx, path):
     obj = json.load(open(path))
     case = obj.get('case') or (obj.get('first_disagreement') or {}).get('case')
+    if case.get('safety'):
+        why, family = safety_oracle(case)
+        print('oracle (exception safety):', why, '|', family)
+        return 1 if why else 0
     why = oracle(case) or route_oracle(case)
     o, est = impl_obs(case)
     m = parse_model(ctx.get_driver().ask([model_line(case, est)])[0])
